@@ -171,7 +171,7 @@ impl Prop for C16 {
             stub: vec!["socket layer (SimNet)", "clock", "task scheduler (seeded)", "HashMap seeds"],
             assumptions: vec![
                 "liveness is checked at the horizon: last operation/fault + 240 simulated seconds (every dial, substream, read/write and per-peer time-out of the code fits several times)",
-                "the quorum-was-sent clause is asserted only in runs without connection-killing faults (a message handed to a connection that is then reset is legitimately lost); for put_record/start_providing to the closest peers only the lower bound 'at least one node received it' is asserted because the target set is internal",
+                "the quorum-was-sent clause is asserted only in runs without connection-killing faults and without process stalls (a message handed to a connection that is then reset, or to a peer whose process never gets to read it before the connection goes away, was sent but is legitimately never seen by the receiver's application); for put_record/start_providing to the closest peers only the lower bound 'at least one node received it' is asserted because the target set is internal",
             ],
         }
     }
@@ -233,6 +233,7 @@ impl Prop for C16 {
                 faults.extend(nodesim::gen_connect_faults(&mut rng, 2));
             }
         }
+        faults.extend(nodesim::gen_freeze_faults(seed, n, last + 5000));
         let mut knobs = gen_node_knobs(&mut rng);
         if rng.chance(1, 6) {
             knobs["max_out"] = json!(rng.range(1, 2));
@@ -263,7 +264,7 @@ impl Prop for C16 {
         let total = n + 4;
         let last_ms = ops.iter().map(|o| o["at_ms"].as_u64().unwrap_or(0)).max().unwrap_or(0).max(nodesim::last_fault_ms(&faults));
         let horizon_ms = last_ms + 240_000;
-        let killing = faults.iter().any(|f| matches!(f["kind"].as_str(), Some("reset") | Some("half_close") | Some("partition") | Some("byte_reset") | Some("byte_eof") | Some("kill")));
+        let killing = faults.iter().any(|f| matches!(f["kind"].as_str(), Some("reset") | Some("half_close") | Some("partition") | Some("byte_reset") | Some("byte_eof") | Some("kill") | Some("freeze")));
         run_sim(seed, sched, Duration::from_millis(horizon_ms), 8_000_000, verbose, move |handle: Handle| {
             let net = SimNet::new(handle.clone(), seed, NetKnobs::from_json(&case["net"]));
             net.install();
